@@ -355,6 +355,37 @@ std::vector<Workload> build()
                              }
                      }});
     }
+    // 5b. the TECMP LIN builder on objects without a (complete) header: constructed from 0..2 raw bytes, default-constructed, moved-from
+    w.push_back({"tecmp lin builder on truncated / default / moved-from objects", [=](Out& o) {
+                     for (size_t len : {(size_t) 0, (size_t) 1, (size_t) 3, (size_t) 8})
+                     {
+                         Bytes d = pt(len, 1);
+                         auto emit = [&](const TECMP::Payload& p) { o.bytes(p.getRawPayload(), p.getLength()); o.val(p.getLength()); };
+                         for (size_t k = 0; k <= 2; ++k)
+                         {
+                             std::unique_ptr<uint8_t[]> img(new uint8_t[k ? k : 1]);
+                             for (size_t i = 0; i < k; ++i)
+                                 img[i] = (uint8_t) (0x21 * (i + 1));
+                             TECMP::LinPayload p(img.get(), k);
+                             p.setData(d.data(), (uint8_t) len);
+                             emit(p);
+                         }
+                         {
+                             TECMP::LinPayload p;
+                             p.setData(d.data(), (uint8_t) len);
+                             emit(p);
+                         }
+                         {
+                             TECMP::LinPayload src;
+                             Bytes q = pt(5, 2);
+                             src.setData(q.data(), 5);
+                             TECMP::LinPayload taken(std::move(src));
+                             emit(taken);
+                             src.setData(d.data(), (uint8_t) len);   // the moved-from object is used again
+                             emit(src);
+                         }
+                     }
+                 }});
     // 6. payload builders with prior contents: raw bytes
     for (int prior = 0; prior < 3; ++prior)
     {
